@@ -44,7 +44,7 @@ class C03(nestedcheck.NestedCheck):
     )
     theorems = ('TM.C03_P4_exits', 'TM.C03_P4_enters', 'TM.C03_P1_pass', 'TM.C03_P1', 'TM.C03_dispatch_global_only',
                 'TM.C03_P3_pass', 'TM.C03_P3_complete_pass', 'TM.C03_P5_pass_result', 'TM.C03_P2_source_was_active',
-                'TM.C03_P5_unhandled_flat', 'TM.C03_exec_le_one_of_chain', 'TM.C03_counterexample_redispatch',
+                'TM.C03_P5', 'TM.C03_P5_unhandled_flat', 'TM.C03_exec_le_one_of_chain', 'TM.C03_counterexample_redispatch',
                 'TM.C03_counterexample_result_overwritten', 'TM.C03_counterexample_stale_source',
                 'TM.C03_counterexample_reentered_source', 'TM.C03_counterexample_nested_lists',
                 'TM.C03_counterexample_local_effect', 'TM.C03_counterexample_suppressed_region',
